@@ -416,7 +416,7 @@ func TestC01(t *testing.T) {
 	}
 	types := refcodec.Types()
 	// (3) in process, all 65 types
-	rapidCases(h, "inprocess", env.PerShard(env.Pick(24000, 2000000)), func(rt *rapid.T) wireCase {
+	rapidCases(h, "inprocess", env.PerShard(env.Pick(160000, 4000000)), func(rt *rapid.T) wireCase {
 		c := wireCase{Msg: genMsgOfType(rt, rapid.SampledFrom(types).Draw(rt, "type"))}
 		if rapid.IntRange(0, 3).Draw(rt, "raw") == 0 {
 			c.RawPerm = genU32(rt, "rawperm")
@@ -434,7 +434,7 @@ func TestC01(t *testing.T) {
 		return f
 	})
 	// (1)+(2) at the connection: real client, tap, real server, recording backend
-	rapidCases(h, "client-server", env.PerShard(env.Pick(4000, 200000)), genCallCase, func(c callCase) *fail {
+	rapidCases(h, "client-server", env.PerShard(env.Pick(24000, 400000)), genCallCase, func(c callCase) *fail {
 		st := &callStats{}
 		f := runCallCase(c, st)
 		h.Case(callHash(c), st.nonDefault, "connection:"+c.Method)
@@ -444,7 +444,7 @@ func TestC01(t *testing.T) {
 		return f
 	})
 	// (2b) raw peer: T types the client never sends, raw upper bits
-	rapidCases(h, "raw-peer", env.PerShard(env.Pick(2000, 100000)), genRawCase, func(c rawCase) *fail {
+	rapidCases(h, "raw-peer", env.PerShard(env.Pick(16000, 200000)), genRawCase, func(c rawCase) *fail {
 		f := runRawCase(c)
 		h.Case(evid.HashJSON(c), true, "raw-peer:"+c.Kind)
 		if h.WantSample("raw-peer") {
